@@ -317,6 +317,90 @@ def gen_geom(rng, depth=0):
     return g, res
 
 
+def subdivide(ring, piece):
+    """axis-aligned ring with every edge cut into pieces of length `piece` (which divides every edge)"""
+    out = [list(ring[0])]
+    for (x1, y1), (x2, y2) in zip(ring[:-1], ring[1:]):
+        n = int(round((abs(x2 - x1) + abs(y2 - y1)) / piece))
+        for i in range(1, n + 1):
+            out.append([x1 + (x2 - x1) * i / n, y1 + (y2 - y1) * i / n])
+    return out
+
+
+def gen_fine_coarse(rng):
+    """mixes of finely digitised (every edge < resolution) and coarse (edges >= resolution) rings / parts:
+    fine shell + coarse holes, coarse shell + fine holes, multi-part mixes.  Exactness domain."""
+    u = float(F(2) ** rng.randint(-2, 3))
+    m = rng.choice([1, 2, 3, 4])
+    j = rng.randint(1, 2)
+    res = 5 * m * u / 2 ** j                      # 5u/4 <= res <= 10u
+    piece = 5 * u / 8                             # < res: a ring cut into such pieces needs no densification
+    ox, oy = rng.choice([(0.0, 0.0), (-37.0 * u, 11.0 * u), (2.0 ** 18, -(2.0 ** 17))])
+
+    def shell(dx=0.0):
+        return rect(ox + dx, oy, 5 * 8 * u, 5 * 4 * u, cw=rng.random() < 0.5)
+
+    def hole(i, dx=0.0):                          # edges 20u/10u >= res: coarse
+        return rect(ox + dx + 5 * u + i * 15 * u, oy + 5 * u, 5 * 2 * u, 5 * 2 * u * rng.choice([1, 1, 0.5]) * 1.0,
+                    cw=rng.random() < 0.5)
+
+    def poly(fine_shell, fine_holes, nholes, dx=0.0):
+        e = shell(dx)
+        hs = [hole(i, dx) for i in range(nholes)]
+        if fine_shell:
+            e = subdivide(e, piece)
+        hs = [subdivide(h, piece) if f else h for h, f in zip(hs, fine_holes)]
+        return ["Polygon", e, hs]
+
+    def line(fine, dy):
+        p = [[ox, oy + dy], [ox + 5 * 8 * u, oy + dy]]
+        return ["Line", subdivide(p, piece) if fine else p]
+
+    v = rng.choice(["fine-shell", "fine-holes", "mixed-holes", "mpolygon", "collection", "mline"])
+    if v == "fine-shell":
+        g = poly(True, [False, False], rng.randint(1, 2))
+    elif v == "fine-holes":
+        g = poly(False, [True, True], rng.randint(1, 2))
+    elif v == "mixed-holes":
+        g = poly(rng.random() < 0.5, [True, False], 2)
+    elif v == "mpolygon":
+        g = ["Multi", "MPolygon", [poly(True, [False], 1), poly(False, [True], 1, dx=2.0 ** 9 * u)][:: rng.choice([1, -1])]]
+    elif v == "mline":
+        g = ["Multi", "MLine", [line(True, 0.0), line(False, 5 * u), line(True, 10 * u)]]
+    else:
+        g = ["Multi", "MCollection", [line(True, -5 * u), poly(True, [False], 1), ["Multi", "MPolygon", [poly(True, [False, True], 2)]],
+                                      line(False, -10 * u)]]
+    return g, res, v
+
+
+def ref_segmented(g, res):
+    """independent reference for Geometry.segmented on the exactness domain: the Fraction recomputation of the
+    float shadow.  Returns (exact, geometry with float coordinates)"""
+    exact = [True]
+
+    def dn(cs):
+        if len(cs) < 1:
+            return []
+        ok, out_ = shadow_densify([tuple(map(float, p)) for p in cs], float(res))
+        if not ok:
+            exact[0] = False
+            return [list(p) for p in cs]
+        return [[float(x), float(y)] for x, y in out_]
+
+    def walk(g):
+        t = g[0]
+        if t in ("Point", "MultiPoint"):
+            return g
+        if t in ("Line", "Ring"):
+            return [t, dn(g[1])]
+        if t == "Polygon":
+            return [t, dn(g[1]), [dn(h) for h in g[2]]]
+        return [t, g[1], [walk(p) for p in g[2]]]
+
+    r = walk(g)
+    return exact[0], r
+
+
 def auto_polygon(r, x0=0.0, y0=0.0):
     """area = (32r)^2 - (256+128+8+4+2+1) r^2 = (25 r)^2, all sides r * 2^k: _auto_resolution = r exactly"""
     R = lambda a, b, w, h: rect(x0 + a * r, y0 + b * r, w * r, h * r)
@@ -491,6 +575,13 @@ def gen_cases(out, tier):
             out.count("segmented-kind:" + k)
         add("segmented:" + kind, f"CSegmented {cgeom(g)} {cq(F(res))} {t}", (g, res), True,
             {"op": "segmented", "geom": g, "resolution": res} if i < 1 else None)
+    for i in range(40 if tier == "quick" else 400):
+        g, res, v = gen_fine_coarse(rng)
+        if not shadow_geom(g, res):
+            escapes += 1
+            continue
+        t, kind = cres(cgeom, lambda: with_timeout(15, lambda: real_segmented(g, res)))
+        add("segmented-fine/coarse:" + v, f"CSegmented {cgeom(g)} {cq(F(res))} {t}", (g, res))
     for g in (["Line", []], ["Polygon", [], []], ["Multi", "MCollection", []], ["Multi", "MLine", []],
               ["Multi", "MCollection", [["Line", []], ["Point", [1.0, 1.0]]]]):
         t, kind = cres(cgeom, lambda: real_segmented(g, 1.0))
@@ -772,9 +863,15 @@ def p_tocrs(src, g, dst, res, wrap=False, cf=False):
         r_eff = math.sqrt(G0.geom.area) * 4 / 100
     elif res_ is not None:
         r_eff = res_
+    b = None
     if r_eff is not None and math.isfinite(r_eff) and r_eff > 0:
-        base = G0.segmented(r_eff)
-    b = from_shapely(base.geom)
+        exact, ref = ref_segmented(g, r_eff)      # independent of Geometry.segmented wherever no float op rounds
+        if exact:
+            b = ref
+        else:
+            base = G0.segmented(r_eff)
+    if b is None:
+        b = from_shapely(base.geom)
     r = from_shapely(got.geom)
     if skeleton(b) != skeleton(r):
         return False, f"type/structure/vertex count changed: {skeleton(b)} -> {skeleton(r)}"
@@ -867,6 +964,140 @@ def p_wrap(src, g, dst):
     return True, "ok"
 
 
+def paths_of(g):
+    return [sq_ for sq_ in seqs(g) if len(sq_) > 1]
+
+
+def p_wrap_res(src, g, dst, R):
+    """option combination to_crs(geographic, resolution=R, wrapdateline=True) near / across the antimeridian.
+    Output vertices are mapped back to the source CRS with pyproj directly: no edge may be longer than
+    R * (1 + 1e-6) + 30 source units (30 m: twice the documented 1e-4 deg snapping onto +-180, plus PROJ round-trip
+    noise); edges between two vertices that both sit exactly on +-180 are edges of the antimeridian cut line, not
+    of the geometry, and are not judged.  Every original vertex must be present where pyproj puts it (snapping
+    within 1e-4 deg allowed)."""
+    from odc.geo.geom import Geometry
+
+    G0 = Geometry(to_shapely(g), src)
+    got = with_timeout(30, lambda: G0.to_crs(dst, resolution=float(R), wrapdateline=True))
+    r = from_shapely(got.geom)
+    tr = pyproj_tr(src, dst)
+    back = pyproj_tr(dst, src)
+    thresh = 180 - SNAP_DEG
+    imgs = [tr.transform(v[0], v[1]) for v in verts(g)]
+    outv = verts(r)
+    for v, img in zip(verts(g), imgs):
+        if not any(img[1] == w[1] and (img[0] == w[0] or (abs(img[0]) >= thresh and abs(w[0]) == 180.0)) for w in outv):
+            return False, f"original vertex {v} -> pyproj {img} is missing from the output"
+    bound = float(R) * (1 + 1e-6) + 30.0
+    worst = 0.0
+    for path in paths_of(r):
+        bk = [back.transform(w[0], w[1]) for w in path]
+        for (w1, b1), (w2, b2) in zip(zip(path[:-1], bk[:-1]), zip(path[1:], bk[1:])):
+            if abs(w1[0]) == 180.0 and abs(w2[0]) == 180.0:
+                continue
+            d = math.hypot(b1[0] - b2[0], b1[1] - b2[1])
+            worst = max(worst, d)
+            if d > bound:
+                return False, (f"edge {w1} - {w2} of the result is {d:.1f} source units long after mapping back with pyproj; "
+                               f"requested resolution {R} (bound {bound:.1f})")
+    return True, f"longest edge {worst:.1f} <= {bound:.1f}"
+
+
+def gen_am_dense(rng, src, side):
+    """line / box / box with hole / polygon with a hole across the antimeridian, in `src` coordinates, and a
+    resolution several times shorter than its longest edge"""
+    to_src = pyproj_tr("EPSG:4326", src)
+    lat0 = rng.uniform(5, 22)
+    if src not in ("EPSG:32660", "EPSG:32601") and rng.random() < 0.5:
+        lat0 = -lat0 - 1
+
+    def pt(lon, dlat):
+        lon = lon if lon <= 180 else lon - 360
+        x, y = to_src.transform(lon, lat0 + dlat)
+        return [x, y]
+
+    def box(l0, l1, a0, a1):
+        return [pt(l0, a0), pt(l0, a1), pt(l1, a1), pt(l1, a0), pt(l0, a0)]
+
+    d_in = rng.choice([5e-4, 2e-3, 0.01, 0.05, 0.09])
+    if side == "west":
+        l0, l1 = 180 - rng.choice([0.6, 1.2]), 180 - d_in
+    elif side == "east":
+        l0, l1 = 180 + d_in, 180 + rng.choice([0.6, 1.2])
+    else:
+        l0, l1 = 180 - rng.choice([0.4, 0.8]), 180 + rng.choice([0.3, 0.7])
+    w = l1 - l0
+    kind = rng.choice(["line", "box", "boxhole", "boxhole"])
+    if kind == "line":
+        g = ["Line", [pt(l0, 0.0), pt(l0 + w / 2, 0.3), pt(l1, 0.1)]]
+    elif kind == "box":
+        g = ["Polygon", box(l0, l1, 0.0, 0.5), []]
+    else:
+        if side == "cross" and rng.random() < 0.5:
+            h = box(l0 + w * 0.2, l0 + w * 0.8, 0.1, 0.4)       # the hole crosses too
+        else:
+            h = box(l0 + w * 0.1, l0 + w * 0.35, 0.1, 0.4)
+        g = ["Polygon", box(l0, l1, 0.0, 0.5), [h[::-1]]]
+    longest = max(math.hypot(a[0] - b[0], a[1] - b[1]) for pth in paths_of(g) for a, b in zip(pth[:-1], pth[1:]))
+    return g, longest / rng.choice([2.5, 4.0, 7.3])
+
+
+HIST_N = [0]
+
+
+def fresh_crs(rng):
+    """a CRS spelled as never before in this process: its pyproj object (and so every transformer-cache key
+    that involves it) is new"""
+    HIST_N[0] += 1
+    lon0 = 12 + rng.randrange(1, 10 ** 6) / 10 ** 7 + HIST_N[0] / 10 ** 9
+    if rng.random() < 0.5:
+        return f"+proj=laea +lat_0=50 +lon_0={lon0!r} +x_0=0 +y_0=0 +ellps=GRS80 +units=m +no_defs"
+    return f"+proj=tmerc +lat_0=0 +lon_0={lon0!r} +k=0.9996 +x_0=500000 +y_0=0 +ellps=GRS80 +units=m +no_defs"
+
+
+def p_history(src, dst, hist, lonlat):
+    """histories on the SAME CRS objects the geometry carries: earlier transformer_to_crs calls (`hist`: list of
+    ["fwd"|"rev", always_xy]) must not influence a later Geometry.to_crs, nor each other.  Every transformer output
+    is judged against pyproj.Transformer.from_crs(..., always_xy=<as requested>) built directly, every vertex of
+    to_crs and of the way back against always_xy=True."""
+    import pyproj
+    from odc.geo.crs import CRS
+    from odc.geo.geom import Geometry
+
+    A, B = CRS(src), CRS(dst)
+    pa, pb = pyproj.CRS.from_user_input(src), pyproj.CRS.from_user_input(dst)
+    pts = [pyproj.Transformer.from_crs("EPSG:4326", pa, always_xy=True).transform(lo, la) for lo, la in lonlat]
+    ptsb = [pyproj.Transformer.from_crs("EPSG:4326", pb, always_xy=True).transform(lo, la) for lo, la in lonlat]
+
+    def probe(direction, xy):
+        X, Y, P, Q, q = (A, B, pa, pb, pts[0]) if direction == "fwd" else (B, A, pb, pa, ptsb[0])
+        a = q if xy or not P.is_geographic or P.axis_info[0].direction == "east" else (q[1], q[0])
+        want = pyproj.Transformer.from_crs(P, Q, always_xy=bool(xy)).transform(a[0], a[1])
+        gotp = X.transformer_to_crs(Y, always_xy=bool(xy))(a[0], a[1])
+        return tuple(gotp) == tuple(want), f"transformer_to_crs({direction}, always_xy={xy})({a}) = {tuple(gotp)}, pyproj: {tuple(want)}"
+
+    for k, (direction, xy) in enumerate(hist):
+        ok, d = probe(direction, xy)
+        if not ok:
+            return False, f"history step {k}: {d}"
+    G0 = Geometry(to_shapely(["Line", [list(p) for p in pts]] if len(pts) > 1 else ["Point", list(pts[0])]), A)
+    got = G0.to_crs(B)
+    tr = pyproj.Transformer.from_crs(pa, pb, always_xy=True)
+    for v, w in zip(pts, verts(from_shapely(got.geom))):
+        if tuple(tr.transform(v[0], v[1])) != (w[0], w[1]):
+            return False, f"after history {hist}: vertex {v} maps to {w}, pyproj(always_xy=True) maps it to {tr.transform(v[0], v[1])}"
+    back = got.to_crs(A)
+    trb = pyproj.Transformer.from_crs(pb, pa, always_xy=True)
+    for v, w in zip(verts(from_shapely(got.geom)), verts(from_shapely(back.geom))):
+        if tuple(trb.transform(v[0], v[1])) != (w[0], w[1]):
+            return False, f"after history {hist}: way back: vertex {v} maps to {w}, pyproj(always_xy=True) maps it to {trb.transform(v[0], v[1])}"
+    for direction, xy in hist[::-1]:          # the earlier-built transformers must still be what was asked for
+        ok, d = probe(direction, xy)
+        if not ok:
+            return False, f"after to_crs: {d}"
+    return True, "ok"
+
+
 AM_SOURCES = [("EPSG:32660", "west"), ("EPSG:3832", "west"), ("EPSG:3832", "east"), ("EPSG:3857", "west"),
               ("EPSG:3857", "east"), ("EPSG:32601", "east"), ("EPSG:32660", "cross"), ("EPSG:3832", "cross")]
 
@@ -908,7 +1139,8 @@ def gen_antimeridian(rng, src, side):
 
 
 PREDICATES = {"transformer": p_transformer, "densify": p_densify, "segmented": p_segmented, "retain": p_retain, "nonpositive": p_nonpositive,
-              "to_crs": p_tocrs, "roundtrip": p_roundtrip, "wrapdateline": p_wrap}
+              "to_crs": p_tocrs, "roundtrip": p_roundtrip, "wrapdateline": p_wrap, "wrapdateline+resolution": p_wrap_res,
+              "history": p_history}
 
 
 def search(out, tier):
@@ -956,6 +1188,13 @@ def search(out, tier):
         if shadow_geom(g, res):
             run("segmented", g, res)
         run("nonpositive", g, rng.choice([0.0, -1.0, -0.0]))
+    # finely digitised and coarse rings / parts mixed, directly and through to_crs(resolution=)
+    for i in range(40 if tier == "quick" else 400):
+        g, res, _ = gen_fine_coarse(rng)
+        if shadow_geom(g, res):
+            run("segmented", g, res)
+            if i % 4 == 0:
+                run("to_crs", "EPSG:3857", g, rng.choice(["EPSG:4326", "EPSG:3035"]), res, rng.random() < 0.5)
     # arbitrary floats: retention only
     for _ in range(200 if tier == "quick" else 3000):
         coords = [[rng.uniform(-1e3, 1e3), rng.uniform(-1e3, 1e3)] for _ in range(rng.randint(1, 5))]
@@ -977,13 +1216,32 @@ def search(out, tier):
             elif t in ("MultiPoint", "Line"):
                 g = [t, [jig(p) for p in g[1]]]
         res = rng.choice([None, None, r0, "auto", float("inf"), 0.0]) if rng.random() < 0.6 else None
-        run("to_crs", src, g, dst, res)
+        # option combinations: the whole alphabet lives in central Europe, where wrapdateline must not change anything
+        run("to_crs", src, g, dst, res, rng.random() < 0.4)
         if src and dst and tier != "quick" or (src and dst and i % 5 == 0):
             run("roundtrip", src, g, dst)
     # wrapdateline=True to a geographic CRS: near (both sides) and across the antimeridian
     for i in range(64 if tier == "quick" else 800):
         src, side = AM_SOURCES[i % len(AM_SOURCES)]
         run("wrapdateline", src, gen_antimeridian(rng, src, side), rng.choice(["EPSG:4326", "epsg:4326"]))
+    # option combination resolution + wrapdateline near / across the antimeridian, judged in the source CRS via pyproj
+    am = [("EPSG:32660", "west"), ("EPSG:3832", "west"), ("EPSG:3832", "east"), ("EPSG:32601", "east"),
+          ("EPSG:32660", "cross"), ("EPSG:3832", "cross")]
+    for i in range(36 if tier == "quick" else 360):
+        src, side = am[i % len(am)]
+        g, R = gen_am_dense(rng, src, side)
+        run("wrapdateline+resolution", src, g, rng.choice(["EPSG:4326", "epsg:4326"]), R)
+    # histories of transformer_to_crs calls (always_xy False / True, both directions) before to_crs, on CRS objects
+    # that are new to the process (so that the first transformer built for the pair is the one of the history)
+    for i in range(40 if tier == "quick" else 400):
+        new = fresh_crs(rng)
+        other = rng.choice(["EPSG:4326", "EPSG:4326", "epsg:4326", "EPSG:4258", "EPSG:3857"])
+        src, dst = (new, other) if rng.random() < 0.5 else (other, new)
+        hist = [[rng.choice(["fwd", "rev"]), rng.random() < 0.35] for _ in range(rng.randint(0, 3))]
+        if i % 2 == 0:
+            hist = [[rng.choice(["fwd", "rev"]), False]] + hist[:2]
+        lonlat = [[12 + rng.uniform(-2, 2), 50 + rng.uniform(-2, 2)] for _ in range(rng.randint(1, 3))]
+        run("history", src, dst, hist, lonlat)
     # the transformer itself (numpy path, NaN harmonisation); 4326 -> 4258 is a no-op pipeline that lets a NaN through per axis
     nan = float("nan")
     for src, dst in [("EPSG:4326", "EPSG:4258"), ("EPSG:4326", "EPSG:3857"), ("EPSG:3857", "EPSG:4326"),
